@@ -144,4 +144,7 @@ def random_seq(rng, nops, maxbytes):
             for b in st:
                 if b[2] == "n":
                     b[2] = "v"
-    return cmd(src, avail, ops, tbl)
+    c = cmd(src, avail, ops, tbl)
+    # how the source hands out bytes must not matter: at most k bytes per read call (0 = no limit)
+    c["maxread"] = rng.choice([0, 0, 1, 2, 3, 5])
+    return c
